@@ -1,11 +1,18 @@
 #!/bin/sh
-# Build the framework from files on disk only (offline): Coq development, extracted model + driver, Rust harness.
-set -e
+# Build the framework from files on disk only (offline): Coq development, extracted models + drivers, Rust harnesses.
+# Every check rebuilds what it needs itself; this only warms the caches, so a failure of an unclaimed
+# (in-progress) file does not fail the setup, but a failure of a claimed property's theorem file does.
 cd "$(dirname "$0")"
 export CARGO_NET_OFFLINE=true
 mkdir -p work
 python3 -c "import sys; sys.path.insert(0,'lib'); import vlib; vlib.gen_coqproject()"
-( cd coq && timeout 3000 make -j16 > ../work/coq-build.log 2>&1 || { tail -50 ../work/coq-build.log; exit 1; } )
-for e in coq/Extract_*.v; do n=$(basename "$e" .v); sh driver/build.sh "${n#Extract_}"; done
+( cd coq && timeout 3000 make -k -j16 > ../work/coq-build.log 2>&1 ) || echo "note: some Coq files did not build (see work/coq-build.log)"
+rc=0
+for p in $(python3 -c "import json; print(' '.join(c['property_id'] for c in json.load(open('MANIFEST.json'))['checks']))"); do
+  ( cd coq && timeout 3000 make -j16 "Properties/$p.vo" > "../work/coq-$p.log" 2>&1 ) || { echo "FAILED: Properties/$p.vo"; tail -20 "work/coq-$p.log"; rc=1; }
+done
+for e in coq/Extract_*.v; do n=$(basename "$e" .v); sh driver/build.sh "${n#Extract_}" > "work/driver-${n#Extract_}.log" 2>&1 || echo "note: driver ${n#Extract_} did not build"; done
 ( cd harness && CARGO_TARGET_DIR=../target/default cargo build --release --offline 2>&1 | tail -3 )
-echo setup done
+[ -d harness-eval ] && ( cd harness-eval && CARGO_TARGET_DIR=../target/eval cargo build --release --offline 2>&1 | tail -3 )
+echo "setup done rc=$rc"
+exit $rc
